@@ -39,6 +39,10 @@ P = {
   "Data-flow / unit / range / provenance check of the real coordinate code with uninterpreted trigonometry: for every node position and every provenance (lon/lat only incl. 0..360 longitudes, centres supplied as lon/lat or derived, xyz only) and several first-access orders z3 shows that node/edge/face x,y,z are the unit vectors of the reported degrees (exactly one deg->rad conversion), centres not supplied are the normalised mean of the element's own corner vectors, derived lon/lat are rad2deg of arctan2(y,x)/arcsin(z) of the reported xyz with the pole snap taking the sign of z, all longitudes are reported in [-180,180] congruent to the source mod 360; normalize_cartesian_coordinates leaves every node and face-centre triple with unit length and unchanged direction.",
   "Floats as reals; sin/cos/arcsin/arctan2/sqrt uninterpreted with the listed axioms (ranges of the inverse functions, sqrt(1)=1); products/quotients of two non-constant reals are uninterpreted in the data-flow obligations ('algebra-free' mode, commutativity and unit lemmas instantiated), so value-level identities such as sin^2+cos^2=1 are not used; rounding and the accuracy of numpy's trig are outside. Bounds: 2 faces (4+3 corners) over 5 nodes, 7-8 first accesses, 3 access orders; the normalisation obligation fixes 7 rational directions and keeps lengths symbolic. Abstracted obligations: sat models are candidates judged by a concrete replay (same direction within 1e-6).",
   "DESIGN.md §2 C04"),
+ "C01": (True,
+  "For each reader the in-memory source's contents AND dialect are symbolic (index base, declared fill value, integer width / float storage, padding by zeros, repeats or garbage, arbitrary variable/dimension names, 0..360 longitudes); z3 shows that the Grid built by the real reader through the public constructors (incl. format sniffing) has the source's faces in order with the source's corner indices shifted to zero base, padding only at the row end in the single standard fill value and platform integer type, longitudes in [-180,180] congruent mod 360, and that shipped connectivity / centres / distances / areas are carried with the same meaning (MPAS primal and dual role swap).",
+  "Readers covered: explicit topology arrays, UGRID, ESMF, MPAS primal+dual, Exodus (single block; coord and coordx/y/z layouts), the shared _replace_fill_values kernel, format sniffing. Not covered in this round (no obligation, a change there is not detected): SCRIP, GEOS-CS, ICON, shapefile/GeoJSON, from_face_vertices, multi-block Exodus, reading bytes from files (C libraries). Bounds: 2 faces <= 4 corners (all padding layouts), node ids < 6, MPAS 2 cells/4 vertices/3 edges. Trusted: symxr as a model of xarray (rename/filter_by_attrs/isel/attrs fall-through), z3.",
+  "DESIGN.md §2 C01"),
 }
 NA = {
  "C10": "Quantifies over arbitrary compositions of xarray's own operations; whether the grid survives is decided inside xarray/numpy C-level dispatch which symbolic values cannot cross, and there is no bounded uxarray kernel to encode (DESIGN.md §4).",
